@@ -97,8 +97,41 @@ pub fn scenario_digest(sc: &Scenario) -> u64 {
     Fnv::of_str(&serde_json::to_string(sc).expect("scenario serialises"))
 }
 
+fn nest_depth(ns: &[input::Nested]) -> usize {
+    ns.iter()
+        .map(|n| match n {
+            input::Nested::Item(it) => match &it.form {
+                input::Form::List(inner) => 1 + nest_depth(inner),
+                _ => 1,
+            },
+            _ => 1,
+        })
+        .max()
+        .unwrap_or(0)
+}
+
 fn record_stats(st: &mut Stats, sc: &Scenario, j: &Judged) {
     st.inc("runs");
+    let depth = sc
+        .doc
+        .attrs
+        .iter()
+        .map(|a| match a {
+            input::Attr::Meta(it) => match &it.form {
+                input::Form::List(inner) => nest_depth(inner),
+                _ => 0,
+            },
+            _ => 0,
+        })
+        .max()
+        .unwrap_or(0);
+    st.inc(match depth {
+        0..=1 => "input_nesting/0-1",
+        2..=3 => "input_nesting/2-3",
+        4..=9 => "input_nesting/4-9",
+        10..=49 => "input_nesting/10-49",
+        _ => "input_nesting/50+",
+    });
     st.add("steps", j.seam_calls as u64);
     st.inc(&format!("receiver/{}", sc.receiver));
     st.inc(&format!("entry/{:?}", sc.entry));
